@@ -402,6 +402,16 @@ fn gen_objects(master: u64, job: u64, tier: Tier) -> Vec<(Obj, String)> {
         let (c, _p, raw) = workload::gen_reshift_band_stream(&mut rng);
         v.push((Obj::Stream(raw), format!("reshift-band text, {}", c.describe())));
     }
+    if job % 16 == 11 {
+        let (c, _p, raw) = workload::gen_big_dynamic_block_stream(&mut rng);
+        v.push((Obj::Stream(raw), format!("one dynamic block of > 65535 literals, {}", c.describe())));
+    }
+    if job % 4 == 2 {
+        let (c, _p, raw) = workload::gen_tail_match_stream(&mut rng);
+        v.push((Obj::Stream(raw), format!("long match at the end of input, {}", c.describe())));
+        let (c, _p, raw) = workload::gen_empty_plaintext_stream(&mut rng);
+        v.push((Obj::Stream(raw), format!("empty plaintext, {}", c.describe())));
+    }
     if job % 64 == 5 {
         let (c, _p, raw) = workload::gen_wraparound_block_stream(&mut rng);
         v.push((Obj::Stream(raw), c.describe()));
